@@ -75,7 +75,15 @@ where
     }
 
     writeln!(writer, "    let url = \"{}\";", rust_str(action.as_str()))?;
-    writeln!(writer, "    helpers::send_soap_request(url, credentials, req).await")?;
+    if operation.output.is_some() {
+        writeln!(writer, "    helpers::send_soap_request(url, credentials, req).await")?;
+    } else {
+        // a one-way operation: there is no response envelope to read
+        writeln!(
+            writer,
+            "    helpers::send_soap_request::<_, helpers::NoResponse, _, _>(url, credentials, req).await.map(|_| ())"
+        )?;
+    }
     writeln!(writer, "}}")?;
 
     Ok(())
